@@ -3,4 +3,4 @@ From Coq Require Import Extraction ExtrOcamlBasic.
 From T38 Require Import Base.Bytes Model.Resp Model.Aof Model.Pipeline.
 Extraction Language OCaml.
 Extraction "model.ml" Z.add Z.of_N Nat.add enc encs read_next load_aof load_aof_sz load_whole
-  sniff read_cmd read_cmd_fixed rm_step conn_run http_parse.
+  sniff read_cmd read_cmd_fixed rm_step conn_run http_parse sock_read_size pipeline_buf_size serve_reads.
